@@ -50,6 +50,10 @@ M = [
     ("c20_bm_coefficient", "phonopy/qha/eos.py", "9.0 / 16", "9.0 / 8", ["C20"]),
     ("c20_expansion_dt", "phonopy/qha/core.py", "dt = self._temperatures[i + 1] - self._temperatures[i - 1]", "dt = self._temperatures[i + 1] - self._temperatures[i]", ["C20"]),
     ("c16_extended_symbol_dropped", "phonopy/structure/atoms.py", 'if "extended_symbol" in x:  # like Fe1\n                symbols.append(x["extended_symbol"])\n            elif "symbol" in x:  # like Fe\n                symbols.append(x["symbol"])', 'if "symbol" in x:  # like Fe\n                symbols.append(x["symbol"])\n            elif "extended_symbol" in x:  # like Fe1\n                symbols.append(x["extended_symbol"])', ["C16"]),
+    ("c18_tdisp_fmin_ignored", "phonopy/cui/phonopy_script.py", "                direction=p_direction,\n                freq_min=settings.min_frequency,", "                direction=p_direction,\n                freq_min=None,", ["C18"]),
+    ("c18_gv_yaml_component", "phonopy/phonon/mesh.py", "% tuple(self._group_velocities[i, j])", "% tuple(self._group_velocities[i, j][::-1])", ["C18"]),
+    ("c18_tprop_cutoff_ignored", "phonopy/cui/phonopy_script.py", "                cutoff_frequency=settings.cutoff_frequency,", "                cutoff_frequency=None,", ["C18"]),
+    ("c18_band_connection_ignored", "phonopy/cui/phonopy_script.py", "is_band_connection=settings.is_band_connection,", "is_band_connection=False,", ["C18"]),
     ("c17_bohr_dropped", "phonopy/interface/calculator.py", 'units["distance_to_A"] = Bohr\n        units["force_to_eVperA"] = Rydberg / Bohr', 'units["distance_to_A"] = 1.0\n        units["force_to_eVperA"] = Rydberg / Bohr', ["C17"]),
     ("c17_vasp_sort_unstable", "phonopy/interface/vasp.py", "return sorted(range(len(keys)), key=keys.__getitem__)", "return sorted(range(len(keys)), key=lambda i: (keys[i], -i))", ["C17"]),
     ("c16_magmom_component", "phonopy/structure/atoms.py", "{mag[1]:.8f}, {mag[2]:.8f}]", "{mag[1]:.8f}, {mag[1]:.8f}]", ["C16"]),
